@@ -329,14 +329,25 @@ func taLog(r *rng, maxRows int, s *sink) string {
 	b.WriteString(strings.Join(hs, ",") + eol)
 	earlyMarker("after_columns")
 	rows := r.intn(maxRows + 1)
+	var prevVals []string
 	for i := 0; i < rows; i++ {
 		vals := make([]string, nc)
+		// two samples logged in the same millisecond are two samples (the real log has such pairs)
+		sameTick := prevVals != nil && r.chance(1, 8)
+		if sameTick {
+			s.count("wf.row.same_timestamp")
+		}
 		for j, ci := range idx {
 			vals[j] = taValue(r, taCols[ci].kind)
+			if sameTick && (taCols[ci].header == "UTC Time" || taCols[ci].header == "Time") {
+				vals[j] = prevVals[j]
+				continue
+			}
 			if r.chance(1, 40) {
 				vals[j] = `"` + vals[j] + `"`
 			}
 		}
+		prevVals = vals
 		b.WriteString(strings.Join(vals, ",") + eol)
 		if r.chance(1, 5) {
 			fmt.Fprintf(&b, "# Lap %d:%s%02d:%02d:%02d.%03d%s", lapNo, pick(r, []string{" ", " ", " ", ""}), r.intn(2), r.intn(60), r.intn(60), r.intn(1000), eol)
@@ -619,6 +630,8 @@ func corpusTA(cfg *config) []string {
 		"dec mut " + hexStr("# Vehicle\n"),
 		"dec mut " + hexStr("# Lap 3\n"),
 		"dec mut " + hexStr("# Session End\n"),
+		// two different samples in the same millisecond
+		"dec wf " + hexStr("Time,UTC Time,GPS_Update,Latitude\n0.000,1653983971.010,1,50.8590633\n0.010,1653983971.020,0,50.8590633\n0.010,1653983971.020,1,50.8590192\n0.020,1653983971.030,1,50.8589770\n"),
 		// a flag column holding one character that is no flag
 		"dec mut " + hexStr("Time,GPS_Update,Latitude\n0.000,1,50.8590633\n0.010,x,50.8590633\n"),
 		"dec mut " + hexStr("Time,Brake (calculated),OBD_Update\n0.000,0,1\n0.010,7,1\n0.020,0,-\n"),
